@@ -679,31 +679,23 @@ fn exec_inner(ctx: &mut Ctx, out: &mut Out, ws: &[&str]) -> Option<(Option<Strin
                         return None;
                     }
                     let h = to as usize;
-                    let response = {
+                    // the holder's real `Node::handle_network_event` (arm `QueryRequestReceived`): it spawns `handle_query` and
+                    // hands the answer to `Network::send_response`; the responder is the one a request to self would carry
+                    // (`MsgResponder::FromSelf`), so the real `SendResponse` handler puts the answer into this oneshot
+                    let (rtx, mut rrx) = oneshot::channel();
+                    {
                         let sim = ctx.sim();
-                        let network = sim.nodes[h].network.clone();
+                        let _g = sim.rt.enter();
                         let q = Query::GetReplicatedRecord { requester, key: key.clone() };
-                        // `Node::handle_network_event`, arm `QueryRequestReceived`: handle_query, then send the response
-                        let Sim { rt, nodes, .. } = sim;
-                        let n = &mut nodes[h];
-                        rt.block_on(async {
-                            let fut = ant_node::verif::node::VerifNode::handle_query(&network, q, ant_evm::RewardsAddress::from([0x11u8; 20]));
-                            tokio::pin!(fut);
-                            let mut spins = 0;
-                            loop {
-                                tokio::select! {
-                                    biased;
-                                    r = &mut fut => break Some(r),
-                                    _ = tokio::task::yield_now() => {
-                                        while let Some(cmd) = ant_networking::verif::driver::try_recv_local_cmd(&mut n.driver) {
-                                            let _ = hook::handle_local_cmd(&mut n.driver, cmd);
-                                        }
-                                        spins += 1;
-                                        if spins > 10_000 { break None; }
-                                    }
-                                }
-                            }
-                        })
+                        sim.nodes[h].node.handle_network_event(ant_networking::NetworkEvent::QueryRequestReceived {
+                            query: q,
+                            channel: ant_networking::MsgResponder::FromSelf(Some(rtx)),
+                        });
+                    }
+                    let _ = ctx.sim().pump(h);
+                    let response = match rrx.try_recv() {
+                        Ok(Ok(r)) => Some(r),
+                        _ => None,
                     };
                     let Some(response) = response else { return Some((None, "get stuck".into())) };
                     let kn = ctx.sim().kid_addr(&key).parse::<u64>().unwrap_or(9999);
@@ -1263,6 +1255,12 @@ fn corpus(uni: &Universe) -> Vec<String> {
             v.push(l.into());
         }
     }
+    // a heard holder advertises a chunk it does not hold: the fetch is scheduled, the holder answers "not found", the
+    // fallback network get finds nothing, nothing is stored
+    mesh2(&mut v, &[0]);
+    for l in ["forge 1 0 0=C", "deliver 1", "deliver 2", "deliver 3", "dump"] {
+        v.push(l.into());
+    }
     // a trigger on an empty index still starts the minimum interval: the record uploaded right after it is advertised
     // by the first trigger that fires 30 s later, not before (shrunk from a thorough-tier oracle false alarm)
     mesh2(&mut v, &[0]);
@@ -1348,6 +1346,6 @@ fn main() {
     if ctx.slow_histories > 0 {
         out.notes.push(format!("{} histories were slow in real time (more than 3.5 s, or more than 0.8 s for a history with ticks next to a timing constant, e.g. 44 s against 45 s): a simulated-time comparison may have been decided by real time", ctx.slow_histories));
     }
-    out.notes.push("glue executed by the harness instead of the real code: the Cmd::Replicate match arm (calls add_keys_to_replication_fetcher directly), the KeysToFetchForReplication / QueryRequestReceived arms of Node::handle_network_event, libp2p request-response (oneshot answered directly), the run loop's select (commands polled through the hook), FailedToFetchHolders is observed but not forwarded".into());
+    out.notes.push("glue executed by the harness instead of the real code: the Cmd::Replicate match arm (calls add_keys_to_replication_fetcher directly), libp2p request-response (a request becomes a NetworkEvent::QueryRequestReceived with a FromSelf responder / the requester's oneshot is answered with the response), the run loop's select (commands polled through the hook), FailedToFetchHolders is observed but not forwarded".into());
     out.finish();
 }
